@@ -77,7 +77,7 @@ def model_check(spec, cfg, scratch, workers=8, timeout=1500, extra=(), env=None,
             pass
         else:
             raise TLCFailure(f"TLC failed on {spec} {cfg} (rc={rc}):\n{out[-3000:]}")
-    return dict(spec=spec, cfg=cfg, states=states, transitions=gen, violated=violated, out=out,
+    return dict(spec=spec, cfg=cfg, states=states, transitions=gen, violated=violated, out=out, nout=normalize(out),
                 wall_s=round(wall, 2))
 
 
@@ -89,7 +89,12 @@ def coverage_actions(out):
     return res
 
 
-RE_V = re.compile(r'<<"VIOL", (.*)>>\s*$')
+def normalize(out):
+    """TLC pretty-prints long values over several lines: collapse all white space."""
+    return re.sub(r"\s+", " ", out).replace("<< ", "<<").replace(" >>", ">>")
+
+
+RE_V = re.compile(r'<<"VIOL", ([^<>]*)>>')
 
 
 def _parse_tla_value(s):
@@ -130,11 +135,9 @@ def trace_check(spec, cfg, events, scratch, shards=8, timeout=1500, env=None, ta
             raise TLCFailure(
                 f"trace spec {spec} consumed {distinct - 1} of {len(part)} events (shard {i}):\n{out[-3000:]}")
         viols = []
-        for line in out.splitlines():
-            mv = RE_V.search(line)
-            if mv:
-                v = _parse_tla_value(mv.group(1))
-                viols.append((v[0], v[1]))
+        for mv in RE_V.finditer(normalize(out)):
+            v = _parse_tla_value(mv.group(1))
+            viols.append((v[0], v[1]))
         os.unlink(path)
         return viols, distinct
 
